@@ -150,6 +150,14 @@ fn main() {
     run.ev.set("cuckoo", json!({"configurations": ccfgs.len(), "states": cs, "transitions": ct, "union_pairs": cpairs, "union_runs(all rng outcomes)": cruns}));
     run.ev.add_u64("states", cs);
     run.ev.add_u64("transitions", ct);
+    // ---- medium-scale deterministic differential runs (not exhaustive; catch scale-dependent defects) ----
+    {
+        let (ms, mv, mj) = checks::medium::run_all(&["qf", "cuckoo", "bloom"], run.thorough(), checks::par::n_threads());
+        run.ev.set("medium_scale_runs", json!({"configurations": mj, "operations": ms.ops, "reference_comparisons": ms.comparisons, "note": "long structured histories on tables of 64..4096 slots against an exact reference; complements the exhaustive tiny-scope search, not part of the exhaustive claim"}));
+        for v in mv {
+            run.violation(v);
+        }
+    }
     let tr = run.ev.coverage.get("transitions").cloned().unwrap_or(json!(0));
     run.ev.set("traces_validated_against_impl", tr);
     run.ev.set("exhaustive", json!(closed));
